@@ -5,6 +5,7 @@ CONSTANTS
   Tasks <- T2
   MCGated <- G1
   MaxOps <- Ops1_6
+  WithClear = FALSE
   FixJoin = FALSE
   FixGrow = FALSE
 INVARIANT ExactlyOnce
